@@ -3,7 +3,7 @@
 From Coq Require Import ZArith QArith Qreals List Reals Bool.
 From Coquelicot Require Import Complex.
 From PyqspV Require Import Base.Ops Model.LPolyM Model.LAlgM Model.QInst Model.Checkers
-  Theory.RingK Theory.LPolyT Theory.LAlgT Theory.CplxT Theory.QC Theory.CertT Theory.C01T Theory.C04T Theory.CornerT.
+  Theory.RingK Theory.LPolyT Theory.LAlgT Theory.CplxT Theory.QC Theory.CertT Theory.C01T Theory.C04T Theory.CornerT Theory.SupT Theory.TargetBoundT.
 Import ListNotations.
 Open Scope R_scope.
 
@@ -39,3 +39,14 @@ Theorem C03_complex_return_certified phi0 rest Pre Pim tol :
   forall theta, Cmod (Cminus (m00 (Ux_at phi0 rest theta)) (targetC Pre Pim theta)) <= 100 * Q2R tol.
 Proof. exact (check_c02_sound phi0 rest Pre Pim tol). Qed.
 Print Assumptions C03_complex_return_certified.
+
+(* every member of the real family is an admissible QSP target: a Chebyshev series is bounded on [-1,1]
+   by the 1-norm of its coefficient vector (all degrees, all coefficient vectors), so |c|_1 <= 0.9
+   keeps the target at distance >= 0.1 from +-1 on the whole interval *)
+Theorem C03_family_bounded_by_norm1 c x : -1 <= x <= 1 -> Rabs (cheb_series c x) <= sumR (map Rabs c).
+Proof. exact (cheb_series_norm1 c x). Qed.
+Print Assumptions C03_family_bounded_by_norm1.
+
+Corollary C03_family_admissible c x : -1 <= x <= 1 -> sumR (map Rabs c) <= 9 / 10 -> Rabs (cheb_series c x) <= 9 / 10.
+Proof. intros Hx Hc. eapply Rle_trans; [exact (cheb_series_norm1 c x Hx) | exact Hc]. Qed.
+Print Assumptions C03_family_admissible.
